@@ -56,11 +56,11 @@ class HeapRewriter:
             return True
         if z3.is_const(t):
             e = smt.EVENT.get(t.decl().name())
-            return t.get_id() in self.fresh and e is not None and e < ev
+            return (t.get_id() in self.fresh or t.decl().name() in smt.EXISTING) and e is not None and e < ev
         n = t.decl().name()
         if n.startswith("A_") and t.num_args() == 1:
             u = t.arg(0)
-            if z3.is_const(u) and not self.entry(u):
+            if z3.is_const(u) and not self.entry(u) and u.decl().name() not in smt.EXISTING:
                 # an object allocated in this function: its constructor may store objects allocated AFTER it
                 return False
             return self.existed_before(u, ev, depth + 1)
